@@ -30,7 +30,8 @@ def _call(f, *a, **kw):
 
 
 _x = st.integers(-2, U - 3)          # includes -1 and -2 (equal hashes) and 0
-_operand = st.tuples(st.sampled_from(['set', 'frozenset', 'list', 'tuple', 'iset']), st.lists(_x, max_size=6)).map(list)
+_operand = st.tuples(st.sampled_from(['set', 'frozenset', 'list', 'tuple', 'iset', 'list', 'tuple', 'iset', 'dupes_list', 'dupes_tuple']),
+                     st.lists(_x, max_size=6)).map(list)
 _idx = st.integers(-40, 40)
 _bound = st.one_of(st.none(), st.integers(-16, 16), st.integers(-16, 16), st.integers(-16, 16),
                    # bounds beyond the machine word (a list clamps them)
@@ -101,8 +102,17 @@ def strat(tier):
     return st.integers(0, 15).flatmap(lambda i: scattered if i == 0 else normal)
 
 
+_CURRENT = [[]]     # the reference list of the set under test (for operands derived from its current contents)
+
+
 def _mk_operand(spec):
     kind, xs = spec
+    if kind in ('dupes_list', 'dupes_tuple'):
+        # as many elements as the set has, all of them members, but only every other member (each twice): same length, not equal
+        m = _CURRENT[0]
+        half = m[(xs[0] if xs else 0) % 2::2] or m[:1]
+        out = (half * 2)[:len(m)] if m else []
+        return list(out) if kind == 'dupes_list' else tuple(out)
     if kind == 'set':
         return set(xs)
     if kind == 'frozenset':
@@ -218,6 +228,7 @@ def run(case):
     others = []         # other live instances: [set, model]
     for step, (op, full_check) in enumerate(expand_ops(case, (1,))):
         name = op[0]
+        _CURRENT[0] = m
         where = 'step %d %r' % (step, op if len(repr(op)) < 200 else op[:2])
         if name in ('clone', 'switch'):
             if name == 'clone':
@@ -425,7 +436,7 @@ def run(case):
             if sym.startswith('r'):
                 o = set(op[2][1]) if kind2 != 'frozenset' else frozenset(op[2][1])
             else:
-                o = _mk_operand(['set' if kind2 in ('list', 'tuple') else kind2, op[2][1]])
+                o = _mk_operand(['set' if kind2 in ('list', 'tuple', 'dupes_list', 'dupes_tuple') else kind2, op[2][1]])
             ol = _uniq(list(o))
             f = {
                 '|': lambda: s | o, '&': lambda: s & o, '-': lambda: s - o, '^': lambda: s ^ o,
